@@ -33,6 +33,8 @@ Definition node_of_sx (x : sx) : option (path * node) :=
   match x with
   | L [p; I 0%Z] => option_map (fun p' => (p', Dir)) (asListOf asB p)
   | L [p; I 1%Z; B text] => option_map (fun p' => (p', File text)) (asListOf asB p)
+  | L [p; I 2%Z] => option_map (fun p' => (p', Broken)) (asListOf asB p)
+  | L [p; I 3%Z] => option_map (fun p' => (p', Unreadable)) (asListOf asB p)
   | _ => None
   end.
 Definition tree_of_sx (x : sx) : option fstree := asListOf node_of_sx x.
